@@ -15,6 +15,28 @@ NOT_APPLICABLE = {
 }
 
 
+
+def technique_of(rules):
+    """Names the deciding method per family of rules (T-: emitted code, M-: MIR facts, S-: hand-written sources)."""
+    parts = []
+    t = [r for r in rules if r.startswith("T-") and r != "T-TYPECHECK"]
+    m = [r for r in rules if r.startswith("M-")]
+    sy = [r for r in rules if r.startswith("S-")]
+    if t:
+        extra = ""
+        if "T-LOOP" in t or "T-PENDING" in t:
+            extra = "; T-LOOP/T-PENDING: path-sensitive typestate analysis of close_until, also on the generator's template"
+        if "T-FLAT" in t:
+            extra += "; T-FLAT: comparison with a reference flattening of enumerated source rules"
+        parts.append("custom lint over the syntax tree (syn) of the code the working tree's generator emits for shipped theories, /verif/corpus and enumerated rules (%s%s)" % (", ".join(t), extra))
+    if "T-TYPECHECK" in rules:
+        parts.append("rustc's type checker on every emitted module and component (T-TYPECHECK, --emit=metadata, nothing linked or run)")
+    if m:
+        parts.append("dataflow over MIR facts dumped by a rustc_private driver: dominators, must-pass reachability, place-based taint, call-graph and who-may-call inventories (%s)" % ", ".join(m))
+    if sy:
+        parts.append("syntax-tree lint (syn) of the hand-written runtime: sibling agreement, delegation tables, pruning and navigation idioms (%s)" % ", ".join(sy))
+    return "static analysis: " + "; ".join(parts)
+
 def main():
     checks = []
     for pid in sorted(props.PROPERTIES):
@@ -29,7 +51,7 @@ def main():
             "engine": "check",
             "level_claimed": {"category": spec["level"], "text": text, "design_ref": "DESIGN.md section 5, %s" % pid},
             "level_note": note,
-            "technique": spec.get("technique", "static analysis: custom lint over the syntax tree of generated code (rules %s)" % ", ".join(spec["rules"])),
+            "technique": spec.get("technique", technique_of(spec["rules"])),
         })
     na = []
     all_ids = ["C%02d" % i for i in range(1, 21)]
